@@ -1235,6 +1235,28 @@ fn main() {
     procmon::register_current();
     let prop = args.str("property", "C08");
     let mut rep = Report::new("queue_conc", &prop);
+    // a library call (made under in_call) that blocks the harness thread for good - or waits / spins - is a verdict of
+    // its own; the wedged process cannot go on, so the watchdog thread writes a (short) report and ends it
+    {
+        let (prop2, args2) = (prop.clone(), args.clone());
+        spawn_call_watchdog(move |what, _ctx, evidence| {
+            let mut r = Report::new("queue_conc", &prop2);
+            r.eval();
+            if prop2 == "C10" {
+                r.violation(Violation {
+                    property: "C10".into(),
+                    rule: "R5".into(),
+                    class: "flush-blocked".into(),
+                    detail: format!("a caller's flush / telemetry read waits for the worker or the wrapped sink [{}]: {}", what, evidence),
+                    replay_args: args2.to_vec_with(&[]),
+                    trace: Json::Null,
+                });
+            } else {
+                r.inconclusive(format!("a caller's call blocked for good in a run for {} (the C10 check reports it) [{}]: {}", prop2, what, evidence));
+            }
+            std::process::exit(r.finish(args2.get("out")));
+        });
+    }
     let mode = args.str("mode", "conc");
     let seed = args.u64("seed", 1);
     let shard = args.u64("shard", 0);
